@@ -288,7 +288,7 @@ pub fn random_module(rng: &mut Rng) -> String {
 
 /// `$R` = an int-valued read of the symbol (`Q` for a global, `Q(2)` for a function), `$Q` = the bare name.
 /// (code, needs the vector stream, global only, statements inside f1 while the local is in scope)
-const USE_POSITIONS: [(&str, bool, bool, &str); 62] = [
+const USE_POSITIONS: [(&str, bool, bool, &str); 64] = [
     // statements
     ("xs", false, false, "r += $R;"),
     ("vi", false, false, "int t = $R;\nr += t;"),
@@ -303,6 +303,7 @@ const USE_POSITIONS: [(&str, bool, bool, &str); 62] = [
     ("ee-elseif-cond", false, false, "if (y > 50)\n{\n    r += 2;\n}\nelse if ($R > 5)\n{\n    r += 3;\n}"),
     ("fi", false, false, "int i = 0;\nfor (i = $R & 3; i < 5; ++i)\n{\n    r += i;\n}"),
     ("fd", false, false, "for (int i = $R & 3; i < 5; ++i)\n{\n    r += i;\n}"),
+    ("fd-second", false, false, "for (int i = 0, j = $R & 3; i < j + 2; ++i)\n{\n    r += i + j;\n}"),
     ("fc", false, false, "for (int i = 0; i < ($R & 3); ++i)\n{\n    r += 2;\n}"),
     ("fa", false, false, "for (int i = 0; i < 4; i += ($R & 1) + 1)\n{\n    r += 2;\n}"),
     ("fb", false, false, "for (int i = 0; i < 2; ++i)\n{\n    r += $R;\n}"),
@@ -343,7 +344,7 @@ const USE_POSITIONS: [(&str, bool, bool, &str); 62] = [
     ("wr-out", false, true, "setout($Q);"),
     // vector stream: arrays, vectors, constructors, aggregates, structs, methods
     ("si", true, false, "int v[4] = { 1, 2, 3, 4 };\nr += v[$R & 3];"),
-    ("si-direct", true, false, "int v[8] = { 1, 2, 3, 4, 5, 6, 7, 8 };\nr += v[$R - $R];"),
+    ("si-direct", true, false, "int v[8] = { 1, 2, 3, 4, 5, 6, 7, 8 };\nr += v[($R + x) & 7];"),
     ("si-write", true, false, "int v[4] = { 1, 2, 3, 4 };\nv[$R & 3] = 7;\nr += v[0] + v[1] * 2 + v[2] * 3 + v[3] * 4;"),
     ("si-vector", true, false, "int4 w = int4(1, 2, 3, 4);\nr += w[$R & 3];"),
     ("si-nested", true, false, "int v[4] = { 1, 2, 3, 0 };\nr += v[v[$R & 3]];"),
@@ -355,6 +356,8 @@ const USE_POSITIONS: [(&str, bool, bool, &str); 62] = [
     ("ia-method", true, false, "Pair s = { x, 1 };\nr += s.get($R);"),
     ("sm-of-call", true, false, "r += mk($R).n;"),
     ("da", true, false, "r += dflt(x);"),
+    // the default argument mentions the symbol while an earlier *parameter* of the same function is the renamed local
+    ("da-param", true, false, "r += dflt(x);"),
 ];
 
 /// (B): `int Q = <E>;` — the reference sits in the initialiser of a local called like the symbol
@@ -417,6 +420,9 @@ pub fn usage_stream() -> Vec<(String, String, bool)> {
                     src.push_str(&symbol_def(&q, function));
                     if *code == "da" {
                         src.push_str(&format!("int dflt(int a, int b = {r})\n{{\n    return a * 2 + b;\n}}\n\n"));
+                    }
+                    if *code == "da-param" {
+                        src.push_str(&format!("int dflt(int {b}, int b = {r})\n{{\n    return {b} * 2 + b;\n}}\n\n"));
                     }
                     src.push_str(&consumers(b, k));
                     let stmts = body.replace("$R", &r).replace("$Q", &q);
